@@ -86,8 +86,9 @@ def inject(nodes, kind, k):
 # traced runs
 # ---------------------------------------------------------------------------------------------
 
-def traced_run(nodes, ctx0, detail="hash", to_file=False, reuse_pipeline=None):
-    """Run with a JsonlTraceDriver. Returns dict(res=<run_real result>, records, files, driver_closed)."""
+def traced_run(nodes, ctx0, detail="hash", to_file=False, reuse_pipeline=None, launch_context=False):
+    """Run with a JsonlTraceDriver. Returns dict(res=<run_real result>, records, files, driver_closed).
+    `launch_context`: the run carries the metadata of a run of a run-space launch (what `semantiva run` sets before each run)."""
     pipegen.setup()
     from semantiva.trace.drivers.jsonl import JsonlTraceDriver
     with rt.tempdir() as d:
@@ -95,7 +96,13 @@ def traced_run(nodes, ctx0, detail="hash", to_file=False, reuse_pipeline=None):
         if not to_file:
             target.mkdir()
         driver = JsonlTraceDriver(str(target), detail=detail)
-        res = pipegen.run_real(nodes, ctx0, trace=driver)
+        meta = None
+        if launch_context:
+            from semantiva.cli import TraceContext
+            tc = TraceContext()
+            tc.set_run_space_fk(spec_id="0" * 64, launch_id="launch-for-c06", attempt=1, inputs_id=None)
+            meta = {"trace_context": tc, "run_space_index": 0, "run_space_context": dict(ctx0)}
+        res = pipegen.run_real(nodes, ctx0, trace=driver, run_metadata=meta)
         files = rt.read_trace_files(target) if (target.exists()) else {}
         closed = getattr(driver, "_file", None) is None
         raw_ok = True
@@ -174,6 +181,31 @@ def _reraises(h):
     return False
 
 
+def _unconditional_close(finalbody):
+    """Is there a `.close()` call in the finally block that every run reaches?  Allowed around it: nothing, or a guard on the
+    closed object itself (`if drv is not None:` / `if drv:`).  Any other condition makes closing depend on the kind of run."""
+    def is_close(stmt):
+        return isinstance(stmt, ast.Expr) and isinstance(stmt.value, ast.Call) and getattr(stmt.value.func, "attr", None) == "close"
+
+    def receiver(stmt):
+        v = stmt.value.func.value
+        return getattr(v, "id", getattr(v, "attr", None))
+    for stmt in finalbody:
+        if is_close(stmt):
+            return True
+        if isinstance(stmt, ast.If) and not stmt.orelse:
+            t = stmt.test
+            guarded = None
+            if isinstance(t, ast.Compare) and len(t.ops) == 1 and isinstance(t.ops[0], ast.IsNot) and \
+                    isinstance(t.comparators[0], ast.Constant) and t.comparators[0].value is None:
+                guarded = getattr(t.left, "id", getattr(t.left, "attr", None))
+            elif isinstance(t, (ast.Name, ast.Attribute)):
+                guarded = getattr(t, "id", getattr(t, "attr", None))
+            if guarded is not None and any(is_close(x) and receiver(x) == guarded for x in stmt.body):
+                return True
+    return False
+
+
 def extract_lifecycle_shape(src: str):
     tree = ast.parse(src)
     fn = None
@@ -224,7 +256,9 @@ def extract_lifecycle_shape(src: str):
     if pipe_try is None:
         notes.append("no try with a pipeline_end-emitting handler and a closing finally")
     else:
-        shape["closeInFinally"] = True
+        shape["closeInFinally"] = _unconditional_close(pipe_try.finalbody)
+        if not shape["closeInFinally"]:
+            notes.append("the finally block closes the driver only under a condition other than the driver's own presence")
         shape["constructProtected"] = any(t is pipe_try and part == "body" for t, part in enclosing_trys(constructs[0]))
         hs = [h for h in pipe_try.handlers if _calls(h, "on_pipeline_end")]
         shape["endErrInHandler"] = bool(hs)
